@@ -101,6 +101,9 @@ class World:
                 scn["runner_variant"] = "deporder"
                 scn["index_listed_before_component"] = True
         scn.update(extra)
+        if "after_setup" not in scn and self.r.random() < 0.1 and not scn.get("expect_setup_error"):
+            # an "ensure everything is configured" pass of user code between set-up and run (all refused)
+            scn["after_setup"] = self.r.sample(["reregister_hooks", "resetup_rules", "resetup_index"], self.r.randint(1, 3))
         return scn
 
 
